@@ -25,6 +25,7 @@ EXPLANATION = (
     " Added after seed round 6: T6 also covers prefix operators; T8 a conjunction, disjunction or clause met as a subterm by Term.__repr__ is printed in parentheses and not captured by an earlier branch with a text made for another context; T9 And.__repr__ / Or.__repr__ parenthesise an operand that would regroup (left operand of the same kind, Or under And)."
     " Added after seed round 7: T10 a prefix minus is folded into a literal only when the operand is a number."
     " Added after seed round 8: T11 is_lower / is_upper accept every letter on which _token_action starts an identifier."
+    " Added after seed round 9: T12 no build_* method of a term factory hands out a remembered term under a key that leaves out one of its arguments (memo-key rule, `v = f(..); T[k] = v` followed one step)."
 )
 TECHNIQUE = "static analysis: CFG must-facts (length guards with short-circuit edges), table/range agreement"
 LEVEL_TEXT = EXPLANATION
@@ -887,6 +888,46 @@ def rule_t11(repo, col):
     col.floor("T11.character_classes", n, 2)
 
 
+def rule_t12(repo, col):
+    """The factory builds a NEW term for every token: a builder that hands out a remembered term under a key that leaves out one of its arguments returns the term built for another
+    token (a table keyed by the Python value alone also conflates 1, 1.0 and True, which compare and hash equal: `p(1.0)` is then read back as `p(1)`)"""
+    from .. import memo
+
+    if not memo.selftest():
+        raise AnalysisError("memo-key rule does not fire on its positive example")
+    n = 0
+    for ci in sorted(repo.all_classes(), key=lambda c: c.fullname):
+        if not any(isinstance(c, ClassInfo) and c.name.endswith("Factory") for c in repo.mro(ci)):
+            continue
+        for f in ci.methods.values():
+            if not f.name.startswith("build_"):
+                continue
+            n += 1
+            stores = memo.keyed_memo_stores(f.node, f.params, lambda call, _f=f: _resolve_ctor(repo, _f, call))
+            for st, table, key, call, missing in stores:
+                missing = [x for x in missing if x != "self"]
+                col.decide("T12", f.module, st, not missing, "%s: remembered terms are keyed by every argument" % f.qualname,
+                           "%s remembers the term it built in %s[%s] but %s also shapes the term: the next token with an equal key gets the term of another token "
+                           "(and keys that compare equal - 1, 1.0, True - are one entry, so 1.0 is read back as 1)" % (f.qualname, table, key, ", ".join(missing)),
+                           construct="%s: memo key misses an argument" % f.name, function=f.qualname)
+    if n < 10:
+        raise AnalysisError("factory builders not found (%d)" % n)
+    m = repo.module("problog.program")
+    col.ok("T12", m, repo.cls("problog.program", "PrologFactory").node, "%d factory builders scanned: none hands out a remembered term under an incomplete key" % n,
+           construct="factory builders: memo keys", function="PrologFactory")
+
+
+def _resolve_ctor(repo, f, call):
+    """callee FunctionDef for `Cls(...)` (its __init__)"""
+    r = repo.resolve_expr(f.module, call.func)
+    if r is not None and r[0] == "class":
+        init = repo.find_method(r[1], "__init__")
+        return init.node if init is not None else None
+    if r is not None and r[0] == "func":
+        return r[1].node
+    return None
+
+
 def run(repo, col):
     col.rule("T1", "dispatch-table coverage of the tokenizer")
     col.rule("T2", "guard before look-ahead index")
@@ -910,3 +951,5 @@ def run(repo, col):
     rule_t10(repo, col)
     col.rule("T11", "identifier start and continuation classes agree beyond ASCII")
     rule_t11(repo, col)
+    col.rule("T12", "factory builders: no remembered term under an incomplete key")
+    rule_t12(repo, col)
